@@ -255,6 +255,18 @@ def check_c10(tier, seed):
             ExpressionParser().parse(s)
         except Exception as e:  # noqa: BLE001
             fails.append({"clause": "closed-error-contract", "detail": f"nesting depth {depth} raised {type(e).__name__}"})
+    # long FLAT inputs (nesting depth 0 or 1): the stack must not grow with the length of an operator chain
+    n = 1500 if tier == "quick" else 5000
+    for label, s in (("product", " * ".join(["2"] * n)), ("quotient", " / ".join(["x"] * n)), ("mixed * /", " * 2 / ".join(["x"] * (n // 2))), ("sum", " + ".join(["2"] * n)),
+                     ("difference", " - ".join(["y"] * n)), ("equation chain", " = ".join(["2"] * n)), ("implicit product", "x" * n), ("groups", "(2)" * n),
+                     ("function calls", "sgn(1)" * n), ("terms", " + ".join(["4x^2"] * n)), ("minus signs", "-" * n + "x"), ("factorials", "2" + "!" * n), ("digits", "7" * n)):
+        cases += 1
+        try:
+            ExpressionParser().parse(s)
+        except ALLOWED:
+            pass
+        except BaseException as e:  # noqa: BLE001
+            fails.append({"clause": "closed-error-contract", "detail": f"flat chain ({label}, {n} operands, no nesting) `{s[:24]}...` raised {type(e).__name__}"})
     # a failed parse leaves the parser usable: same behaviour as a fresh parser afterwards
     rng = random.Random(seed)
     rng.shuffle(failing)
